@@ -221,7 +221,7 @@ func analyseKinds(c *Ctx, fn *ssa.Function) (map[ssa.Value]kind, []kindIssue) {
 				}
 			case *ssa.Phi:
 				if isIntType(x.Type()) && get(x) == kBad {
-					add(x.Pos(), "mixed-phi:"+x.Comment, "a variable holds both positions and non-positional values")
+					add(x.Pos(), "mixed-phi:"+phiName(x), "a variable holds both positions and non-positional values")
 				}
 			case *ssa.IndexAddr:
 				if x.X == ssa.Value(e.bp) && get(x.Index) != kPos {
